@@ -17,7 +17,8 @@ type vDumpSrc struct {
 
 func vDumpSource() *vDumpSrc {
 	s := &vDumpSrc{w: NewWorld(1)}
-	for i := 0; i < 4; i++ {
+	n0 := 1 + vPick("initial", 3) // 1..3 entities, so that "everything removed again" is within reach
+	for i := 0; i < n0; i++ {
 		s.h[s.n] = s.w.NewEntity()
 		s.alive[s.n] = true
 		s.n++
